@@ -1012,8 +1012,11 @@ static size_t LZ4F_compressUpdateImpl(LZ4F_cctx* cctxPtr,
     /* flush currently written block, to continue with new block compression */
     if (cctxPtr->blockCompressMode != blockCompression) {
         bytesWritten = LZ4F_flush(cctxPtr, dstBuffer, dstCapacity, compressOptionsPtr);
+        FORWARD_IF_ERROR(bytesWritten);
         dstPtr += bytesWritten;
         cctxPtr->blockCompressMode = blockCompression;
+        /* the flushed block used part of dstBuffer : check the space that remains */
+        RETURN_ERROR_IF(dstCapacity - bytesWritten < LZ4F_compressBound_internal(srcSize, &(cctxPtr->prefs), 0), dstMaxSize_tooSmall);
     }
 
     if (compressOptionsPtr == NULL) compressOptionsPtr = &k_cOptionsNull;
